@@ -440,3 +440,151 @@ func (e *zzEnv) zzVerifies(h *types.SignedHeader) bool {
 }
 
 func m0logger() logging.EventLogger { return logging.Logger("zz") }
+
+// ------------------------------------------------------------------- DA ----
+
+type zzDAAnswer struct {
+	kind   int // 0 accept all, 1 accept prefix k, 2 timed out, 3 already in mempool, 4 too big, 5 deadline, 6 generic, 7 cancelled, 8 accepted but ack lost
+	prefix int
+	wrap   bool
+}
+
+type zzAccepted struct {
+	blob   []byte
+	height uint64
+}
+
+// zzDA: scripted DA layer.  Every blob it accepts is recorded with the DA
+// height at which it was included.
+type zzDA struct {
+	script   []zzDAAnswer
+	calls    int
+	offered  [][][]byte
+	accepted []zzAccepted
+	height   uint64
+}
+
+func zzDAAny(pfx string, maxPrefix int) zzDAAnswer {
+	a := zzDAAnswer{kind: zzsym.Pick(pfx+"kind", 9)}
+	if a.kind == 1 {
+		a.prefix = zzsym.Pick(pfx+"prefix", maxPrefix+1)
+	}
+	if a.kind == 2 || a.kind == 3 {
+		a.wrap = zzsym.Bool(pfx + "wrap")
+	}
+	return a
+}
+
+func (d *zzDA) ids(n int) []coreda.ID {
+	out := make([]coreda.ID, n)
+	for i := range out {
+		id := make([]byte, 9)
+		h := d.height
+		for j := 0; j < 8; j++ {
+			id[j] = byte(h >> (8 * uint(j)))
+		}
+		id[8] = byte(i)
+		out[i] = id
+	}
+	return out
+}
+
+func (d *zzDA) accept(blobs [][]byte, n int) []coreda.ID {
+	d.height++
+	for i := 0; i < n; i++ {
+		d.accepted = append(d.accepted, zzAccepted{append([]byte(nil), blobs[i]...), d.height})
+	}
+	return d.ids(n)
+}
+
+func (d *zzDA) SubmitWithOptions(ctx context.Context, blobs []coreda.Blob, gasPrice float64, ns []byte, opts []byte) ([]coreda.ID, error) {
+	d.offered = append(d.offered, blobs)
+	a := zzDAAnswer{}
+	if d.calls < len(d.script) {
+		a = d.script[d.calls]
+	}
+	d.calls++
+	wrap := func(err error) error {
+		if a.wrap {
+			return fmt.Errorf("da layer: %w", err)
+		}
+		return err
+	}
+	switch a.kind {
+	case 0:
+		return d.accept(blobs, len(blobs)), nil
+	case 1:
+		k := a.prefix
+		if k > len(blobs) {
+			k = len(blobs)
+		}
+		if k == 0 {
+			return []coreda.ID{}, nil
+		}
+		return d.accept(blobs, k), nil
+	case 2:
+		return nil, wrap(coreda.ErrTxTimedOut)
+	case 3:
+		return nil, wrap(coreda.ErrTxAlreadyInMempool)
+	case 4:
+		return nil, wrap(coreda.ErrBlobSizeOverLimit)
+	case 5:
+		return nil, wrap(coreda.ErrContextDeadline)
+	case 6:
+		return nil, wrap(zzErrInjected)
+	case 7:
+		return nil, context.Canceled
+	default:
+		d.accept(blobs, len(blobs))
+		return nil, zzErrInjected
+	}
+}
+func (d *zzDA) Submit(ctx context.Context, blobs []coreda.Blob, gasPrice float64, ns []byte) ([]coreda.ID, error) {
+	return d.SubmitWithOptions(ctx, blobs, gasPrice, ns, nil)
+}
+func (d *zzDA) Get(ctx context.Context, ids []coreda.ID, ns []byte) ([]coreda.Blob, error) {
+	zzsym.Unsupported("zzDA.Get")
+	return nil, nil
+}
+func (d *zzDA) GetIDs(ctx context.Context, height uint64, ns []byte) (*coreda.GetIDsResult, error) {
+	zzsym.Unsupported("zzDA.GetIDs")
+	return nil, nil
+}
+func (d *zzDA) GetProofs(ctx context.Context, ids []coreda.ID, ns []byte) ([]coreda.Proof, error) {
+	return nil, nil
+}
+func (d *zzDA) Commit(ctx context.Context, blobs []coreda.Blob, ns []byte) ([]coreda.Commitment, error) {
+	return nil, nil
+}
+func (d *zzDA) Validate(ctx context.Context, ids []coreda.ID, proofs []coreda.Proof, ns []byte) ([]bool, error) {
+	return nil, nil
+}
+func (d *zzDA) GasPrice(ctx context.Context) (float64, error)      { return 1, nil }
+func (d *zzDA) GasMultiplier(ctx context.Context) (float64, error) { return 1, nil }
+
+// zzChain fills the store with committed blocks base+1 .. base+n (hash
+// linked, signed, each empty or with one tx as chosen by nonEmpty) and sets
+// the chain height.
+func (e *zzEnv) zzChain(base uint64, n int, nonEmpty []bool) {
+	prev := types.Hash(zzsym.BytesN("hashBase", 32))
+	ts := zzTimeNs("tsBase")
+	for i := 0; i < n; i++ {
+		var txs types.Txs
+		if nonEmpty[i] {
+			txs = types.Txs{types.Tx(zzsym.BytesN("tx", 1))}
+		}
+		sl := e.zzSignedBlock("c", base+uint64(i)+1, ts+int64(i), prev, zzsym.BytesN("app", 2), txs)
+		e.store.blocks[base+uint64(i)+1] = sl
+		prev = sl.header.Hash()
+	}
+	e.store.height = base + uint64(n)
+}
+
+func zzRaw(t types.Txs) [][]byte {
+	out := make([][]byte, len(t))
+	for i := range t {
+		out[i] = t[i]
+	}
+	return out
+}
+
